@@ -91,6 +91,16 @@ Theorem C05_kkt_certificate_witness :
   fR terms star - fR terms theta <= eps_witness RNum terms star w box.
 Proof. exact kkt_certificate_witness. Qed.
 
+(* the form evaluated by the check on every fit: term-by-term first-order bound to a witness + KKT residual of the witness *)
+Theorem C05_kkt_certificate_gap :
+  forall (terms : list (term RNum)) (star w : list R) (box : list (R * R)),
+  Forall (fun t => length (coefs RNum t) = length w) terms ->
+  Forall (fun t => term_ok t star) terms ->
+  in_box w box -> Forall (fun t => term_ok t w) terms ->
+  forall theta, in_box theta box -> Forall (fun t => term_ok t theta) terms ->
+  fR terms star - fR terms theta <= gapbound RNum terms star w + eps RNum terms w box.
+Proof. exact kkt_certificate_gap. Qed.
+
 Theorem C05_nllterm_tangent : forall n lam lam', 0 <= n -> 0 < lam -> 0 < lam' ->
   nllterm n lam >= nllterm n lam' + (lam - lam') * (1 - n / lam').
 Proof. exact nllterm_tangent. Qed.
@@ -109,5 +119,6 @@ Print Assumptions C05_stitched_unc_zero.
 Print Assumptions C05_stitch_places.
 Print Assumptions C05_kkt_certificate.
 Print Assumptions C05_kkt_certificate_witness.
+Print Assumptions C05_kkt_certificate_gap.
 Print Assumptions C05_nllterm_tangent.
 Print Assumptions C05_closed_form_counting.
